@@ -37,10 +37,10 @@ var c16ValRe = regexp.MustCompile(`^[A-Za-z0-9_.${}-]*$`)
 
 func init() {
 	register(&Prop{ID: "C16", Run: c16Run,
-		Rule: "key sets built from a pool of 14 path-safe segments, several of which are proper string prefixes of others (a, ab, abc, a1, a-b, k, k1 …; the same pool at every level, so that sibling segments related by string prefix but not by dotted prefix are frequent), 1-4 segments per key, 0-8 keys; three streams: prefix-free sets (conflicting keys removed), sets with deliberately added dotted prefixes / extensions of present keys, unconstrained sets; values from a pool of strings over [A-Za-z0-9_.-] incl. the empty string, and in one case out of three also values over [A-Za-z0-9_.${}-] shaped like placeholder expressions: ${key} naming the own key, another key of the set, an undefined key, rings of keys naming each other, nested and repeated ${…}, unclosed ${, and stray $ { } characters; line order of the rendered text shuffled. Thorough tier adds all 128 subsets of {a, b, a.b, a.c, a.b.c, b.a, a.b.c.d} and of {a.b, a.b.x, a.bc, a-b.x, a1, ab.x, abc} in two line orders. A case is non-trivial when it has at least two keys and at least one key with two or more segments; distinct = distinct canonical case JSON (hash).",
+		Rule: "key sets built from a pool of 14 path-safe segments, several of which are proper string prefixes of others (a, ab, abc, a1, a-b, k, k1 …; the same pool at every level, so that sibling segments related by string prefix but not by dotted prefix are frequent), 1-4 segments per key, 0-8 keys; three streams: prefix-free sets (conflicting keys removed), sets with deliberately added dotted prefixes / extensions of present keys, unconstrained sets; values from a pool of strings over [A-Za-z0-9_.-] incl. the empty string, and in one case out of three also values over [A-Za-z0-9_.${}-] shaped like placeholder expressions: ${key} naming the own key, another key of the set, an undefined key, rings of keys naming each other, nested and repeated ${…}, unclosed ${, and stray $ { } characters; line order of the rendered text shuffled. Kind dots (repeated-decode clause only, 'whatever the keys'): such a set plus 1-3 keys with a leading / trailing / doubled separator (k. .k .k. a..b ..k k.. and the keys . .. ...), most of them next to the same key without the stray separator and with a different value; 50 decodes through FromReader (observed through Children and AsMap, not Flatten) and 50 through props.DecoderFn alone must give one result. Kind big (direct predicates only, a fixed handful per run): prefix-free sets described compactly as blocks of pairs b<i>.s<j mod 41>.k<j> = <j>_<i>_padding with a common value length, rendered text between 64 KiB and 6 MiB per run (one below 1 MiB, one of 1.1-2.6 MiB and one of 4.2-6 MiB with tens of thousands of ordinary pairs, one with a few lines longer than 64 KiB each), decoded through FromReader from a strings.Reader, from a plain io.Reader handing out 4093-byte pieces and with the provider's decoder, through props.DecoderFn alone, FromProperties, Unflatten, and written by both encoders and read back - every result compared pair by pair with the set. Thorough tier adds all 128 subsets of {a, b, a.b, a.c, a.b.c, b.a, a.b.c.d} and of {a.b, a.b.x, a.bc, a-b.x, a1, ab.x, abc} in two line orders. A case is non-trivial when it has at least two keys and at least one key with two or more segments; distinct = distinct canonical case JSON (hash).",
 		Assumptions: []string{
 			"magiconair/properties agrees with the reference k=v line parser (Props.parseSimple) on keys over [A-Za-z0-9_.-] and values over [A-Za-z0-9_.${}-]* — raw values as returned by Map(), whatever its ${…} expansion self-check says (validated by the corr:C16.parse comparison on every case, not proved)",
-			"key segments are non-empty and over [A-Za-z0-9_-] (no segment ends in an index group, so AddValueAt treats every segment as a plain child name)",
+			"key segments are non-empty and over [A-Za-z0-9_-] (no segment ends in an index group, so AddValueAt treats every segment as a plain child name); empty segments (stray separators) occur only in the cases of kind dots, on which nothing but the repeated-decode clause is evaluated",
 			"values are plain strings that need no escaping in the properties format"}})
 	evals["C16"] = c16Eval
 	shrinkers["C16"] = c16Shrink
@@ -211,6 +211,11 @@ func c16Run(c *Ctx) {
 		c.Tick()
 		c.Do("kv", c16Gen(r, 2))
 	}
+	for i := 0; i < c.N(300); i++ {
+		c.Tick()
+		c.Do("dots", c16GenDots(r))
+	}
+	c16RunBig(c)
 	if c.Thorough() && !c.searchMode {
 		for _, u := range [][]string{
 			{"a", "b", "a.b", "a.c", "a.b.c", "b.a", "a.b.c.d"},
@@ -295,7 +300,15 @@ func c16ParseLines(text string) (map[string]string, bool) {
 }
 
 func c16Eval(c *Ctx, kind string, raw []byte) {
-	if kind != "kv" {
+	switch kind {
+	case "kv":
+	case "dots":
+		c16EvalDots(c, raw)
+		return
+	case "big":
+		c16EvalBig(c, raw)
+		return
+	default:
 		return
 	}
 	var p c16KV
@@ -539,7 +552,10 @@ func c16Eval(c *Ctx, kind string, raw []byte) {
 
 // c16Shrink proposes smaller key/value sets, always as well-formed pairs: one pair less, then per
 // pair the empty value, a key with one segment less, a key / value with one character less.
-func c16Shrink(_ string, raw []byte) [][]byte {
+func c16Shrink(kind string, raw []byte) [][]byte {
+	if kind == "big" {
+		return c16ShrinkBig(raw)
+	}
 	var p c16KV
 	if json.Unmarshal(raw, &p) != nil {
 		return nil
@@ -560,6 +576,9 @@ func c16Shrink(_ string, raw []byte) [][]byte {
 		q := c16KV{Pairs: [][2]string{}}
 		q.Pairs = append(append(q.Pairs, p.Pairs[:i]...), p.Pairs[i+1:]...)
 		add(q)
+	}
+	if kind == "dots" {
+		c16ShrinkDots(p, add)
 	}
 	for i, e := range p.Pairs {
 		if e[1] != "" {
